@@ -10,8 +10,8 @@ func init() {
 		NotDecided:  "that piles are exactly the connected components, disjointness, order independence, the overlap-slack arithmetic of pileInterval.Overlap/Range, the Piles filter (properties of the interval tree's contents at run time).",
 		Assumptions: []string{"interval.IntTree.DoMatching calls the callback for every overlapping interval; Delete/Insert behave as their names say"},
 		Run: func(c *Ctx) {
-			c.guard("pilemerge", func() { rulePileMerge(c, "pilemerge"); c.floor("pilemerge", 5) })
-			c.guard("pileadd", func() { rulePileAdd(c, "pileadd"); c.floor("pileadd", 4) })
+			c.guard("pilemerge", func() { rulePileMerge(c, "pilemerge"); c.floor("pilemerge", 2) })
+			c.guard("pileadd", func() { rulePileAdd(c, "pileadd"); c.floor("pileadd", 2) })
 			c.guard("pileimages", func() { rulePileImages(c, "pileimages"); c.floor("pileimages", 2) })
 			c.guard("overlapclosed", func() { ruleOverlapClosed(c, "overlapclosed"); c.floor("overlapclosed", 1) })
 			c.guard("intervalcoherent", func() { ruleIntervalCoherent(c, "intervalcoherent", "align/pals"); c.floor("intervalcoherent", 3) })
@@ -29,7 +29,7 @@ func init() {
 			c.guard("casefold", func() { ruleCaseFold(c, "casefold"); c.floor("casefold", 2) })
 			c.guard("compmethod", func() { ruleCompMethod(c, "compmethod"); c.floor("compmethod", 1) })
 			c.guard("asciicheck", func() { ruleASCIICheck(c, "asciicheck"); c.floor("asciicheck", 2) })
-			c.guard("norunes", func() { ruleNoRunes(c, "norunes"); c.floor("norunes", 8) })
+			c.guard("norunes", func() { ruleNoRunes(c, "norunes"); c.floor("norunes", 2) })
 			c.guard("indexinit", func() { ruleIndexInit(c, "indexinit"); c.floor("indexinit", 1) })
 		},
 	})
@@ -43,10 +43,10 @@ func init() {
 			c.guard("scorespace", func() { ruleScoreSpace(c, "scorespace", "Ephred", "Esolexa"); c.floor("scorespace", 2) })
 			c.guard("tableshift", func() {
 				ruleTableShift(c, "tableshift", "phredETable", "solexaETable", "phredSolexaTable", "solexaPhredTable")
-				c.floor("tableshift", 4)
+				c.floor("tableshift", 2)
 			})
 			c.guard("convformula", func() { ruleConvFormula(c, "convformula"); c.floor("convformula", 2) })
-			c.guard("scalepath", func() { ruleScalePath(c, "scalepath"); c.floor("scalepath", 4) })
+			c.guard("scalepath", func() { ruleScalePath(c, "scalepath"); c.floor("scalepath", 2) })
 			c.guard("clampfirst", func() { ruleClampFirst(c, "clampfirst"); c.floor("clampfirst", 1) })
 			c.guard("decodeswitch", func() { ruleDecodeSwitch(c, "decodeswitch"); c.floor("decodeswitch", 2) })
 			c.guard("tables/quality", func() { ruleQuality(c) })
@@ -58,19 +58,19 @@ func init() {
 		NotDecided:  "termination and the one-call-per-line bound (GFF metadata recursion), nil dereferences, failed type assertions, (nil, nil) returns, the FASTQ length check; FASTA/FASTQ readers have no converter (their only reachable explicit panic, Encoding.DecodeTo* default, is configuration-guarded).",
 		Assumptions: []string{"runtime index panics other than on split-field vectors are out of scope", "a converter re-panics exactly non-error and runtime.Error values (checked structurally)"},
 		Run: func(c *Ctx) {
-			c.guard("guardidx", func() { ruleGuardIdx(c, "guardidx", "io/featio/bed", "io/featio/gff"); c.floor("guardidx", 50) })
+			c.guard("guardidx", func() { ruleGuardIdx(c, "guardidx", "io/featio/bed", "io/featio/gff"); c.floor("guardidx", 16) })
 			c.guard("taintsize", func() { ruleTaintSize(c, "taintsize", "io/featio/bed", "io/featio/gff"); c.floor("taintsize", 1) })
 			c.guard("lencheck", func() { ruleLenCheck(c, "lencheck"); c.floor("lencheck", 1) })
-			c.guard("sentinel", func() { ruleSentinel(c, "sentinel", "io/featio/bed", "io/featio/gff"); c.floor("sentinel", 2) })
+			c.guard("sentinel", func() { ruleSentinel(c, "sentinel", "io/featio/bed", "io/featio/gff"); c.floor("sentinel", 1) })
 			c.guard("recovercover", func() {
 				ruleRecoverCover(c, "recovercover", "io/featio/bed", "io/featio/gff")
 				c.floor("recovercover", 2)
 			})
-			c.guard("arrayrange", func() { ruleArrayRange(c, "arrayrange", "alphabet"); c.floor("arrayrange", 4) })
+			c.guard("arrayrange", func() { ruleArrayRange(c, "arrayrange", "alphabet"); c.floor("arrayrange", 2) })
 			c.guard("eofspin", func() { ruleEOFSpin(c, "eofspin", "io/seqio/fasta", "io/seqio/fastq"); c.floor("eofspin", 2) })
 			c.guard("byteidx", func() {
 				ruleByteIdx(c, "byteidx", "io/featio/bed", "io/featio/gff", "io/seqio/fasta", "io/seqio/fastq")
-				c.floor("byteidx", 4)
+				c.floor("byteidx", 2)
 			})
 			c.guard("lineio/eofhang", func() {
 				ruleEOFPaths(c, "lineio/eofhang", "", "io/featio/bed", "io/featio/gff")
@@ -78,9 +78,9 @@ func init() {
 			})
 			c.guard("panicval", func() {
 				rulePanicVal(c, "panicval", "io/featio/bed", "io/featio/gff")
-				c.floor("panicval/root", 6)
+				c.floor("panicval/root", 2)
 				c.floor("panicval/converter", 2)
-				c.floor("panicval", 12+6+2)
+				c.floor("panicval", 6)
 			})
 		},
 	})
@@ -94,7 +94,7 @@ func init() {
 			seqs := []string{"io/seqio/fasta", "io/seqio/fastq"}
 			c.guard("lineio/eofdata", func() { ruleDataOnEOF(c, "lineio/eofdata", feat...); c.floor("lineio/eofdata", 2) })
 			c.guard("lineio/normalise", func() { ruleNormalise(c, "lineio/normalise", feat...); c.floor("lineio/normalise", 2) })
-			c.guard("lineio/fragments", func() { ruleFragments(c, "lineio/fragments", seqs...); c.floor("lineio/fragments", 10) })
+			c.guard("lineio/fragments", func() { ruleFragments(c, "lineio/fragments", seqs...); c.floor("lineio/fragments", 3) })
 			c.guard("lineio/eofdata", func() { ruleDataOnEOF(c, "lineio/eofdata", seqs...) })
 			c.guard("lineio/rawline", func() { ruleRawLine(c, "lineio/rawline", seqs...); c.floor("lineio/rawline", 2) })
 			c.guard("lineio/pendingeof", func() { rulePendingEOF(c, "lineio/pendingeof", seqs...); c.floor("lineio/pendingeof", 2) })
@@ -103,7 +103,7 @@ func init() {
 			})
 			c.guard("bufalias", func() {
 				ruleBufAlias(c, "bufalias", append(append([]string{}, feat...), seqs...)...)
-				c.floor("bufalias", 4)
+				c.floor("bufalias", 2)
 			})
 			c.guard("lineio/eofclean", func() { ruleEOFPaths(c, "", "lineio/eofclean", feat...); c.floor("lineio/eofclean", 2) })
 		},
@@ -115,9 +115,9 @@ func init() {
 		Assumptions: []string{"fmt.Fprint*/io.Writer.Write/io.WriteString report the bytes they wrote", "returns inside `if err != nil` are error exits whose count is not part of the property"},
 		Run: func(c *Ctx) {
 			seqs := []string{"io/seqio/fasta", "io/seqio/fastq"}
-			c.guard("bytecount", func() { ruleByteCount(c, "bytecount", seqs...); c.floor("bytecount", 8) })
-			c.guard("lineio/fragments", func() { ruleFragments(c, "lineio/fragments", seqs...); c.floor("lineio/fragments", 10) })
-			c.guard("tables/markers", func() { ruleMarkers(c); c.floor("tables/markers", 5) })
+			c.guard("bytecount", func() { ruleByteCount(c, "bytecount", seqs...); c.floor("bytecount", 2) })
+			c.guard("lineio/fragments", func() { ruleFragments(c, "lineio/fragments", seqs...); c.floor("lineio/fragments", 3) })
+			c.guard("tables/markers", func() { ruleMarkers(c); c.floor("tables/markers", 2) })
 			c.guard("tables/quality", func() { ruleQuality(c) })
 			c.guard("directsink", func() { ruleDirectSink(c, "directsink", seqs...); c.floor("directsink", 2) })
 			c.guard("prefixstrip", func() { rulePrefixStrip(c, "prefixstrip", seqs...); c.floor("prefixstrip", 2) })
@@ -137,7 +137,7 @@ func init() {
 		NotDecided:  "equality of every field after a round trip, float formatting, attribute splitting, BED column-prefix semantics (reflect-driven format).",
 		Assumptions: []string{"feat.OneToZero/ZeroToOne implement the 1-based/0-based pair (their bodies are value-level)", "fmt.Fprint* report the bytes they wrote"},
 		Run: func(c *Ctx) {
-			c.guard("convpair", func() { ruleConvPair(c, "convpair"); c.floor("convpair", 12) })
+			c.guard("convpair", func() { ruleConvPair(c, "convpair"); c.floor("convpair", 4) })
 			c.guard("bufalias", func() { ruleBufAlias(c, "bufalias", "io/featio/bed", "io/featio/gff"); c.floor("bufalias", 2) })
 			c.guard("directsink", func() { ruleDirectSink(c, "directsink", "io/featio/bed", "io/featio/gff"); c.floor("directsink", 2) })
 			c.guard("noskip", func() {
@@ -145,15 +145,15 @@ func init() {
 				c.floor("noskip", 2)
 			})
 			c.guard("zerocolour", func() { ruleZeroColour(c, "zerocolour"); c.floor("zerocolour", 1) })
-			c.guard("splitsep", func() { ruleSplitSep(c, "splitsep"); c.floor("splitsep", 6) })
+			c.guard("splitsep", func() { ruleSplitSep(c, "splitsep"); c.floor("splitsep", 2) })
 			c.guard("spancheck", func() { ruleSpanCheck(c, "spancheck") })
 			c.guard("attrsplit", func() { ruleAttrSplit(c, "attrsplit"); c.floor("attrsplit", 1) })
 			c.guard("linelimit", func() { ruleLineLimit(c, "linelimit", "io/featio/bed", "io/featio/gff") })
 			c.guard("intervalcoherent", func() {
 				ruleIntervalCoherent(c, "intervalcoherent", "io/featio/bed", "io/featio/gff")
-				c.floor("intervalcoherent", 9)
+				c.floor("intervalcoherent", 3)
 			})
-			c.guard("bytecount", func() { ruleByteCount(c, "bytecount", "io/featio/bed", "io/featio/gff"); c.floor("bytecount", 16) })
+			c.guard("bytecount", func() { ruleByteCount(c, "bytecount", "io/featio/bed", "io/featio/gff"); c.floor("bytecount", 5) })
 		},
 	})
 	cloneTargets := [][2]string{
@@ -172,30 +172,30 @@ func init() {
 				for _, t := range cloneTargets {
 					ruleCloneDeep(c, "fresh/clonedeep", t[0], t[1])
 				}
-				c.floor("fresh/clonedeep", 9)
+				c.floor("fresh/clonedeep", 3)
 			})
 			c.guard("qtravel", func() {
 				ruleQTravel(c, "qtravel", [][2]string{{"seq/linear", "(*QSeq).RevComp"}, {"seq/linear", "(*QSeq).Reverse"}, {"seq/alignment", "(*QSeq).RevComp"}, {"seq/alignment", "(*QSeq).Reverse"}})
-				c.floor("qtravel", 4)
+				c.floor("qtravel", 2)
 			})
 			c.guard("mirror", func() { ruleMirrorTerms(c, "mirror", "(*Multi).RevComp", "(*Multi).Reverse"); c.floor("mirror", 2) })
-			c.guard("getterpure", func() { ruleGetterPure(c, "getterpure"); c.floor("getterpure", 10) })
+			c.guard("getterpure", func() { ruleGetterPure(c, "getterpure"); c.floor("getterpure", 3) })
 			c.guard("rangeself", func() {
 				ruleRangeSelf(c, "rangeself", [][2]string{{"seq/alignment", "(*Seq).RevComp"}, {"seq/alignment", "(*Seq).Reverse"}, {"seq/alignment", "(*QSeq).RevComp"}, {"seq/alignment", "(*QSeq).Reverse"}})
-				c.floor("rangeself", 4)
+				c.floor("rangeself", 2)
 			})
 			c.guard("intervalcoherent", func() {
 				ruleIntervalCoherent(c, "intervalcoherent", "seq/linear", "seq/alignment", "seq/multi")
-				c.floor("intervalcoherent", 4)
+				c.floor("intervalcoherent", 2)
 			})
 			c.guard("strandneg", func() {
 				ruleStrandNeg(c, "strandneg", [][2]string{{"seq/linear", "(*Seq).RevComp"}, {"seq/linear", "(*QSeq).RevComp"}, {"seq/alignment", "(*Seq).RevComp"}, {"seq/alignment", "(*QSeq).RevComp"}, {"seq/alignment", "Row.RevComp"}, {"seq/alignment", "QRow.RevComp"}})
-				c.floor("strandneg", 6)
+				c.floor("strandneg", 2)
 			})
 			c.guard("loopdep", func() {
 				ruleLoopDep(c, "loopdep", "seq/multi", "(*Multi).RevComp", "SetOffset")
 				ruleLoopDep(c, "loopdep", "seq/multi", "(*Multi).Reverse", "SetOffset")
-				c.floor("loopdep", 4)
+				c.floor("loopdep", 2)
 			})
 		},
 	})
@@ -207,20 +207,20 @@ func init() {
 		Run: func(c *Ctx) {
 			c.guard("fresh/freshdst", func() {
 				ruleFreshDst(c, "fresh/freshdst", "Join", "Truncate", "Stitch", "Compose")
-				c.floor("fresh/freshdst", 4)
+				c.floor("fresh/freshdst", 2)
 			})
-			c.guard("slicebounds", func() { ruleSliceBounds(c, "slicebounds"); c.floor("slicebounds", 4) })
+			c.guard("slicebounds", func() { ruleSliceBounds(c, "slicebounds"); c.floor("slicebounds", 2) })
 			c.guard("parallelidx", func() { ruleParallelIdx(c, "parallelidx"); c.floor("parallelidx", 1) })
 			c.guard("trimwindow", func() { ruleTrimWindow(c, "trimwindow"); c.floor("trimwindow", 2) })
-			c.guard("nonneglen", func() { ruleNonNegLen(c, "nonneglen", "Truncate", "Stitch", "Compose"); c.floor("nonneglen", 8) })
+			c.guard("nonneglen", func() { ruleNonNegLen(c, "nonneglen", "Truncate", "Stitch", "Compose"); c.floor("nonneglen", 2) })
 			c.guard("intervalcoherent", func() {
 				ruleIntervalCoherent(c, "intervalcoherent", "seq/linear", "seq/alignment", "seq/multi")
-				c.floor("intervalcoherent", 6)
+				c.floor("intervalcoherent", 2)
 			})
 			c.guard("mustpass", func() { ruleScratchReverse(c, "mustpass"); c.floor("mustpass", 1) })
 			c.guard("qtravel", func() {
 				ruleQTravel(c, "qtravel", [][2]string{{"seq/linear", "(*QSeq).RevComp"}, {"seq/linear", "(*QSeq).Reverse"}, {"seq/alignment", "(*QSeq).RevComp"}, {"seq/alignment", "(*QSeq).Reverse"}})
-				c.floor("qtravel", 4)
+				c.floor("qtravel", 2)
 			})
 			c.guard("runningend", func() { ruleRunningEnd(c, "runningend"); c.floor("runningend", 1) })
 		},
@@ -238,7 +238,7 @@ func init() {
 					{"seq/multi", "(*Multi).AppendColumns"}, {"seq/multi", "(*Multi).AppendEach"},
 					{"seq/multi", "Set.AppendEach"},
 				}, "seq/alignment", "seq/multi", "seq/linear")
-				c.floor("fresh/retain", 7)
+				c.floor("fresh/retain", 2)
 			})
 			c.guard("padfromends", func() { rulePadFromEnds(c, "padfromends"); c.floor("padfromends", 2) })
 			c.guard("stalebuf", func() {
@@ -254,7 +254,7 @@ func init() {
 			c.guard("reflectnew", func() { ruleReflectNew(c, "reflectnew", "seq/multi", "seq/alignment", "seq/linear", "seq/sequtils") })
 			c.guard("intervalcoherent", func() {
 				ruleIntervalCoherent(c, "intervalcoherent", "seq/linear", "seq/alignment", "seq/multi")
-				c.floor("intervalcoherent", 6)
+				c.floor("intervalcoherent", 2)
 			})
 			c.guard("fillwatermark", func() {
 				ruleFillWatermark(c, "fillwatermark", [][2]string{{"alphabet", "Letter.Repeat"}, {"alphabet", "QLetter.Repeat"}})
@@ -269,13 +269,13 @@ func init() {
 				} {
 					rulePerIter(c, "fresh/periter", t[0], t[1])
 				}
-				c.floor("fresh/periter", 7)
+				c.floor("fresh/periter", 2)
 			})
 			c.guard("fresh/clonedeep", func() {
 				for _, t := range cloneTargets {
 					ruleCloneDeep(c, "fresh/clonedeep", t[0], t[1])
 				}
-				c.floor("fresh/clonedeep", 9)
+				c.floor("fresh/clonedeep", 3)
 			})
 		},
 	})
@@ -291,15 +291,15 @@ func init() {
 		NotDecided:  "path monotonicity, score bookkeeping, Format (value-level); that a validation loop covers every position (its bounds are value-level; the repository's validated-in-the-fill-loop idiom is accepted as is).",
 		Assumptions: []string{"alphabet.Index tables hold -1 exactly for letters outside the alphabet"},
 		Run: func(c *Ctx) {
-			c.guard("sibling", func() { ruleSibling(c, "sibling", aligners); c.floor("sibling", 6) })
-			c.guard("argcheck", func() { ruleArgCheck(c, "argcheck", aligners); c.floor("argcheck", 48) })
+			c.guard("sibling", func() { ruleSibling(c, "sibling", aligners); c.floor("sibling", 2) })
+			c.guard("argcheck", func() { ruleArgCheck(c, "argcheck", aligners); c.floor("argcheck", 16) })
 			c.guard("livguard", func() {
 				var fns []*ssa.Function
 				for _, a := range aligners {
 					fns = append(fns, c.fn("align", a+".alignLetters"), c.fn("align", a+".alignQLetters"))
 				}
 				ruleLIVGuard(c, "livguard", fns)
-				c.floor("livguard", 60)
+				c.floor("livguard", 20)
 			})
 			c.guard("stride", func() {
 				var fns []*ssa.Function
@@ -307,9 +307,9 @@ func init() {
 					fns = append(fns, c.fn("align", a+".alignLetters"), c.fn("align", a+".alignQLetters"))
 				}
 				ruleStride(c, "stride", fns)
-				c.floor("stride", 100)
+				c.floor("stride", 33)
 				ruleDPStep(c, "dpstep", fns)
-				c.floor("dpstep", 60)
+				c.floor("dpstep", 20)
 			})
 			c.guard("bordercover", func() {
 				var fns []*ssa.Function
@@ -317,7 +317,7 @@ func init() {
 					fns = append(fns, c.fn("align", a+".alignLetters"), c.fn("align", a+".alignQLetters"))
 				}
 				ruleBorderCover(c, "bordercover", fns, borderRow, borderCol)
-				c.floor("bordercover", 14)
+				c.floor("bordercover", 4)
 			})
 			c.guard("emitnotscore", func() {
 				var fns []*ssa.Function
@@ -326,8 +326,8 @@ func init() {
 				}
 				ruleEmitNotScore(c, "emitnotscore", fns)
 				ruleTableZero(c, "tablezero", fns)
-				c.floor("emitnotscore", 12)
-				c.floor("tablezero", 12)
+				c.floor("emitnotscore", 4)
+				c.floor("tablezero", 4)
 			})
 			c.guard("fillwatermark", func() {
 				ruleFillWatermark(c, "fillwatermark", [][2]string{{"alphabet", "Letter.Repeat"}, {"alphabet", "QLetter.Repeat"}})
@@ -348,11 +348,11 @@ func init() {
 				}
 				return fns
 			}
-			c.guard("dpstep", func() { ruleDPStep(c, "dpstep", fnsOf()); c.floor("dpstep", 60) })
-			c.guard("stride", func() { ruleStride(c, "stride", fnsOf()); c.floor("stride", 100) })
-			c.guard("sibling", func() { ruleSibling(c, "sibling", aligners); c.floor("sibling", 6) })
-			c.guard("bordercover", func() { ruleBorderCover(c, "bordercover", fnsOf(), borderRow, borderCol); c.floor("bordercover", 14) })
-			c.guard("tablezero", func() { ruleTableZero(c, "tablezero", fnsOf()); c.floor("tablezero", 12) })
+			c.guard("dpstep", func() { ruleDPStep(c, "dpstep", fnsOf()); c.floor("dpstep", 20) })
+			c.guard("stride", func() { ruleStride(c, "stride", fnsOf()); c.floor("stride", 33) })
+			c.guard("sibling", func() { ruleSibling(c, "sibling", aligners); c.floor("sibling", 2) })
+			c.guard("bordercover", func() { ruleBorderCover(c, "bordercover", fnsOf(), borderRow, borderCol); c.floor("bordercover", 4) })
+			c.guard("tablezero", func() { ruleTableZero(c, "tablezero", fnsOf()); c.floor("tablezero", 4) })
 			c.guard("argmaxlayer", func() { ruleArgmaxLayer(c, "argmaxlayer", fnsOf()); c.floor("argmaxlayer", 2) })
 			c.guard("delegatefamily", func() { ruleDelegateFamily(c, "delegatefamily", aligners) })
 		},
@@ -366,7 +366,7 @@ func init() {
 			c.guard("livguard", func() {
 				p := c.pkg("index/kmerindex")
 				ruleLIVGuard(c, "livguard", srcFuncs(c.SPkgs[p.PkgPath]))
-				c.floor("livguard", 4)
+				c.floor("livguard", 2)
 			})
 			// the k-mer scanner trusts the alphabet's index table to be negative for every non-letter byte
 			c.guard("tablefill", func() { ruleTableFill(c, "tablefill", "newAlphabet"); c.floor("tablefill", 1) })
@@ -391,13 +391,13 @@ func init() {
 		NotDecided:  "sortedness, multiset equality, Pos/Len arithmetic (value-level).",
 		Assumptions: []string{"the API protocol: Push* Finalise Pull* Clear per cycle"},
 		Run: func(c *Ctx) {
-			c.guard("reset", func() { ruleReset(c, "reset"); c.floor("reset", 6) })
+			c.guard("reset", func() { ruleReset(c, "reset"); c.floor("reset", 2) })
 			c.guard("pooldrain", func() { rulePoolDrain(c, "pooldrain"); c.floor("pooldrain", 1) })
 			c.guard("poolnil", func() { rulePoolNil(c, "poolnil"); c.floor("poolnil", 2) })
 			c.guard("poolmove", func() { rulePoolMove(c, "poolmove"); c.floor("poolmove", 3) })
 			c.guard("removeowner", func() { ruleRemoveOwner(c, "removeowner"); c.floor("removeowner", 2) })
 			c.guard("cycleowner", func() { ruleCycleOwner(c, "cycleowner"); c.floor("cycleowner", 1) })
-			c.guard("errslot", func() { ruleErrSlot(c, "errslot"); c.floor("errslot/sticky", 1); c.floor("errslot/propagate", 6+2) })
+			c.guard("errslot", func() { ruleErrSlot(c, "errslot"); c.floor("errslot/sticky", 1); c.floor("errslot/propagate", 2) })
 			// whether a cycle is in-memory or spilled must not be decided from state the
 			// background writers are still producing: Finalise joins before reading it
 			c.guard("gojoin", func() { ruleMorassJoin(c, "gojoin"); c.floor("gojoin", 1) })
@@ -410,11 +410,11 @@ func init() {
 		Assumptions: []string{"Pull and Clear run after Finalise returned (the API protocol), so their unlocked accesses are ordered after the join", "sync.WaitGroup / sync.Mutex semantics"},
 		Run: func(c *Ctx) {
 			c.guard("gojoin", func() { ruleMorassJoin(c, "gojoin"); c.floor("gojoin", 1) })
-			c.guard("lockset", func() { ruleMorassLockset(c, "lockset"); c.floor("lockset", 4) })
+			c.guard("lockset", func() { ruleMorassLockset(c, "lockset"); c.floor("lockset", 2) })
 			c.guard("errslot", func() { ruleErrSlot(c, "errslot"); c.floor("errslot/sticky", 1) })
 			c.guard("poolreturn", func() { rulePoolReturn(c, "poolreturn"); c.floor("poolreturn", 1) })
 			c.guard("cycleowner", func() { ruleCycleOwner(c, "cycleowner"); c.floor("cycleowner", 1) })
-			c.guard("reset", func() { ruleReset(c, "reset"); c.floor("reset", 6) })
+			c.guard("reset", func() { ruleReset(c, "reset"); c.floor("reset", 2) })
 			c.guard("pooldrain", func() { rulePoolDrain(c, "pooldrain"); c.floor("pooldrain", 1) })
 		},
 	})
@@ -424,11 +424,11 @@ func init() {
 		NotDecided:  "that the delivered values are right after a fault; Close/Remove errors (not in the property's list); what the AutoClear/AutoClean branches remove (value-level).",
 		Assumptions: []string{"an error that reaches a return or the slot is reported by a subsequent Push/Finalise/Pull"},
 		Run: func(c *Ctx) {
-			c.guard("errslot", func() { ruleErrSlot(c, "errslot"); c.floor("errslot/sticky", 1); c.floor("errslot/propagate", 6+2) })
+			c.guard("errslot", func() { ruleErrSlot(c, "errslot"); c.floor("errslot/sticky", 1); c.floor("errslot/propagate", 2) })
 			c.guard("residue", func() { ruleResidue(c, "residue"); c.floor("residue", 3) })
 			c.guard("filepairing", func() { ruleTempFilePairing(c, "filepairing"); c.floor("filepairing", 1) })
 			c.guard("runretire", func() { ruleRunRetire(c, "runretire"); c.floor("runretire", 1) })
-			c.guard("reset", func() { ruleReset(c, "reset"); c.floor("reset", 6) })
+			c.guard("reset", func() { ruleReset(c, "reset"); c.floor("reset", 2) })
 			c.guard("removeowner", func() { ruleRemoveOwner(c, "removeowner"); c.floor("removeowner", 2) })
 			c.guard("gojoin", func() { ruleMorassJoin(c, "gojoin"); c.floor("gojoin", 1) })
 		},
@@ -439,8 +439,8 @@ func init() {
 		NotDecided:  "exactly one result per operation, Map's partition arithmetic, deadlock freedom in general, that Wait eventually returns (liveness).",
 		Assumptions: []string{"sync.Mutex/Cond/Once/WaitGroup semantics", "a goroutine literal started outside any loop runs once per call of its parent"},
 		Run: func(c *Ctx) {
-			c.guard("closeonce", func() { ruleCloseOnce(c, "closeonce", "concurrent"); c.floor("closeonce", 5) })
-			c.guard("lockset", func() { rulePromiseLockset(c, "lockset"); c.floor("lockset", 4) })
+			c.guard("closeonce", func() { ruleCloseOnce(c, "closeonce", "concurrent"); c.floor("closeonce", 2) })
+			c.guard("lockset", func() { rulePromiseLockset(c, "lockset"); c.floor("lockset", 2) })
 			c.guard("sendafterdone", func() { ruleNoSendAfterDone(c, "sendafterdone"); c.floor("sendafterdone", 1) })
 			c.guard("closebysender", func() { ruleCloseBySender(c, "closebysender", "concurrent"); c.floor("closebysender", 1) })
 			c.guard("broadcast", func() { ruleBroadcast(c, "broadcast"); c.floor("broadcast", 1) })
@@ -473,13 +473,13 @@ func init() {
 			c.guard("zerostart", func() { ruleZeroStart(c, "zerostart"); c.floor("zerostart", 1) })
 			c.guard("intronperpair", func() { ruleIntronPerPair(c, "intronperpair"); c.floor("intronperpair", 1) })
 			c.guard("locpairwise", func() { ruleLocPairwise(c, "locpairwise"); c.floor("locpairwise", 1) })
-			c.guard("querypure", func() { ruleQueryPure(c, "querypure"); c.floor("querypure", 6) })
-			c.guard("intervalcoherent", func() { ruleIntervalCoherent(c, "intervalcoherent", "feat/gene"); c.floor("intervalcoherent", 6) })
+			c.guard("querypure", func() { ruleQueryPure(c, "querypure"); c.floor("querypure", 2) })
+			c.guard("intervalcoherent", func() { ruleIntervalCoherent(c, "intervalcoherent", "feat/gene"); c.floor("intervalcoherent", 2) })
 			c.guard("commitlast", func() {
 				ruleCommitLast(c, "commitlast", "feat/gene", "(*NonCodingTranscript).SetExons")
 				ruleCommitLast(c, "commitlast", "feat/gene", "(*CodingTranscript).SetExons")
 				ruleCommitLast(c, "commitlast", "feat/gene", "(*Gene).SetFeatures")
-				c.floor("commitlast", 4)
+				c.floor("commitlast", 2)
 			})
 		},
 	})
@@ -490,7 +490,7 @@ func init() {
 		Assumptions: []string{"Rasmussen/Stoye/Myers: U(n,q,e) = n + 1 - q(e+1) q-grams are shared by any e-match of length n"},
 		Run: func(c *Ctx) {
 			c.guard("tables/ukkonen", func() { ruleUkkonen(c, "tables/ukkonen"); c.floor("tables/ukkonen", 2) })
-			c.guard("emitguard", func() { ruleFilterEmit(c, "emitguard"); c.floor("emitguard", 6) })
+			c.guard("emitguard", func() { ruleFilterEmit(c, "emitguard"); c.floor("emitguard", 2) })
 			// the filter's hits are handed to a morass sorter: none may be lost between Push and Pull
 			c.guard("gojoin", func() { ruleMorassJoin(c, "gojoin"); c.floor("gojoin", 1) })
 			c.guard("gridperiod", func() { ruleGridPeriod(c, "gridperiod"); c.floor("gridperiod", 1) })
@@ -508,13 +508,13 @@ func init() {
 		NotDecided:  "score <= optimal global score of the hit regions, in-bounds coordinates, recall of planted repeats, self-match suppression (value-level). This decides one clause only.",
 		Assumptions: []string{"the kernel's Hit fields Abpos/Aepos/Bbpos/Bepos are the hit's begin/end positions on the two sequences"},
 		Run: func(c *Ctx) {
-			c.guard("emitguard", func() { ruleDPEmit(c, "emitguard"); c.floor("emitguard", 6) })
+			c.guard("emitguard", func() { ruleDPEmit(c, "emitguard"); c.floor("emitguard", 2) })
 			c.guard("dupclass", func() { ruleDupClass(c, "dupclass"); c.floor("dupclass", 2) })
 			c.guard("ownedfilter", func() { ruleOwnedFilter(c, "ownedfilter"); c.floor("ownedfilter", 2) })
 			c.guard("selfguard", func() { ruleSelfGuard(c, "selfguard"); c.floor("selfguard", 1) })
 			c.guard("intersectminmax", func() { ruleIntersectMinMax(c, "intersectminmax"); c.floor("intersectminmax", 2) })
 			c.guard("stalecount", func() { ruleStaleCount(c, "stalecount"); c.floor("stalecount", 1) })
-			c.guard("paramwire", func() { ruleParamWire(c, "paramwire"); c.floor("paramwire", 6) })
+			c.guard("paramwire", func() { ruleParamWire(c, "paramwire"); c.floor("paramwire", 2) })
 			c.guard("runstate", func() { ruleRunState(c, "runstate"); c.floor("runstate", 1) })
 		},
 	})
